@@ -9,7 +9,7 @@
 From Coq Require Import List String ZArith.
 Import ListNotations.
 Require Import CV.RowLeg CV.RowLegMachine CV.SubdivMachine CV.Ssp CV.SspF CV.SspMachine CV.SspMachineRun
-  CV.Orient CV.FreeSpace CV.Legalizer CV.AbacusMachine CV.Moves CV.MovesMachine CV.Hpwl CV.HpwlMachine CV.Density CV.DensityMachine CV.MachineOps.
+  CV.Orient CV.FreeSpace CV.Legalizer CV.AbacusMachine CV.Moves CV.MovesMachine CV.Hpwl CV.HpwlMachine CV.Density CV.DensityMachine CV.Transp1d CV.Transp1dMachine CV.RowLegPlacementMachine CV.MachineOps.
 Local Open Scope Z_scope.
 
 (* ---------- sample evaluations of the listing functions: only the TYPE column is used *)
@@ -18,7 +18,7 @@ Definition tys (l : list (RowLegMachine.cty * Z)) : list RowLegMachine.cty := ma
 (* RowLegMachine: a fresh segment [0, 10) (no bound in the queue: gd_vals = its 4 leading and 11 trailing values);
    one iteration of the while loop on a queue with one bound *)
 Definition smp_gd_vals := tys (gd_vals (rl_init 0 10) 3 5).
-Definition smp_pop_vals := tys (pop_vals [{| bpos := 5; bw := 2 |}] 0 7 3 (-3) 10 0).
+Definition smp_pop_vals := tys (RowLegMachine.pop_vals [{| bpos := 5; bw := 2 |}] 0 7 3 (-3) 10 0).
 (* SubdivMachine: iteration 1 of computeSubdivisions(0, 10, 2) *)
 Definition smp_subdiv_iter_vals := tys (subdiv_iter_vals 0 10 2 1).
 
@@ -32,10 +32,10 @@ Definition smp_relax_vals := tys (relax_vals 1 2).
    one iteration of the while loop of sendSource(src); the first demand of a run *)
 Definition smp_pb1 : Pb := mkPb [5] [3] [[7]].
 Definition smp_pb2 : Pb := mkPb [1; 5] [1] [[0]; [5]].
-Definition smp_send3_vals := tys (send3_vals tree_fuel smp_pb1 (init_st smp_pb1) 0 0 3).
+Definition smp_send3_vals := tys (send3_vals tree_fuel smp_pb1 (Ssp.init_st smp_pb1) 0 0 3).
 Definition smp_walk2_step_vals :=
   tys (walk2_step_vals smp_pb2 1 (mkW2 [[1]; [0]] [[[]; [(5, 0%nat)]]; [[]; []]] 0 0 false) 1).
-Definition smp_send_body_vals := tys (send_body_vals tree_fuel smp_pb1 0 (init_st smp_pb1, 3)).
+Definition smp_send_body_vals := tys (send_body_vals tree_fuel smp_pb1 0 (Ssp.init_st smp_pb1, 3)).
 Definition smp_ssp_run_vals := tys (ssp_run_vals tree_fuel smp_pb1).
 
 (* AbacusMachine: two stacked rows [0,10) x [0,8), [0,10) x [8,16) with fresh row legalizers; a cell wider than the rows (so
@@ -95,6 +95,36 @@ Definition smp_demand_vals := tys (demand_vals [(2, 3)]).
 Definition smp_cell_area_vals := tys (cell_area_vals [(2, 3)]).
 Definition smp_row_area_vals := tys (row_area_vals [({| minX := 0; maxX := 10; minY := 0; maxY := 8 |}, 6)]).
 
+(* RowLegPlacementMachine: getPlacement on a segment [0, 10) holding one cell of width 3 constrained at 2 *)
+Definition smp_gp_aux_vals := tys (gp_aux_vals [2] [3] 3 None).
+(* Transp1dMachine: a sorted problem with sources at 0, 10 (supply 2 each) and sinks at 0, 10 (demand 2 each); an unsorted
+   problem with one source of supply 5 and two sinks of demand 1 (balanceDemand: missing 3, added 1, remainder 1); a solver
+   state with one event at the last position (getSlope pops it) *)
+Definition smp_P2 : sprob := {| su := [0; 10]; sv := [0; 10]; ss := [2; 2]; sd := [2; 2]; sS := [0; 2; 4]; sD := [0; 2; 4] |}.
+Definition smp_pbB : prob := {| pb_u := [0]; pb_v := [0; 1]; pb_s := [5]; pb_d := [1; 1] |}.
+Definition smp_sE : st := {| ev := [(3, 7)]; lp := 3; lo := O; os := O; pp := [] |}.
+Definition smp_total_vals := tys (total_vals [1; 2]).
+Definition smp_setup_vals := tys (setup_vals smp_P2).
+Definition smp_balance_vals := tys (balance_vals smp_pbB).
+Definition smp_order_vals := tys (order_vals [O]).
+Definition smp_idle_vals_of := tys (idle_vals_of [(0, O); (10, 1%nat)] 5 0).
+Definition smp_cost_vals := tys (cost_vals smp_P2 0 1).
+Definition smp_delta_vals := tys (delta_vals smp_P2 0 0).
+Definition smp_upd_opt_vals := tys (upd_opt_vals smp_P2 1 2 0).
+Definition smp_pnse_vals := tys (pnse_vals smp_P2 1 {| ev := []; lp := 0; lo := 1%nat; os := 1%nat; pp := [] |}).
+Definition smp_pnk_vals := tys (pnk_vals smp_P2 0 1 Transp1d.init_st).
+Definition smp_slope_vals := tys (slope_vals smp_sE).
+Definition smp_ptls_vals := tys (ptls_vals smp_P2 0 smp_sE).
+Definition smp_ptns_vals := tys (ptns_vals smp_P2 0 smp_sE).
+Definition smp_push_once_vals := tys (push_once_vals smp_P2 0 smp_sE).
+Definition smp_loop_test_vals := tys (loop_test_vals smp_P2 0 smp_sE).
+Definition smp_push_vals := tys (push_vals smp_P2 0 Transp1d.init_st).
+Definition smp_push_all_vals := tys (push_all_vals smp_P2 [O] Transp1d.init_st).
+Definition smp_t1d_run_vals := tys (Transp1dMachine.run_vals smp_P2).
+Definition smp_t1d_run_vals_rev := tys (rev (Transp1dMachine.run_vals smp_P2)).
+Definition smp_solution_vals := tys (solution_vals smp_P2 [0; 0]).
+Definition smp_assignment_vals := tys (assignment_vals smp_P2 [0; 0]).
+
 Local Open Scope string_scope.
 Definition cover_samples : list (string * list RowLegMachine.cty) :=
   [("gd_vals", smp_gd_vals); ("pop_vals", smp_pop_vals); ("subdiv_iter_vals", smp_subdiv_iter_vals);
@@ -110,9 +140,25 @@ Definition cover_samples : list (string * list RowLegMachine.cty) :=
    ("mm_pins_vals", smp_mm_pins_vals); ("value_vals", smp_value_vals); ("recompute_vals", smp_recompute_vals);
    ("area_vals", smp_area_vals); ("clip_vals", smp_clip_vals); ("nb_bins_vals", smp_nb_bins_vals); ("centers_vals", smp_centers_vals);
    ("cap0_vals", smp_cap0_vals); ("bin_acc_vals", smp_bin_acc_vals); ("sum_vals", smp_sum_vals); ("overflow_vals", smp_overflow_vals);
-   ("demand_vals", smp_demand_vals); ("cell_area_vals", smp_cell_area_vals); ("row_area_vals", smp_row_area_vals)].
+   ("demand_vals", smp_demand_vals); ("cell_area_vals", smp_cell_area_vals); ("row_area_vals", smp_row_area_vals);
+   ("gp_aux_vals", smp_gp_aux_vals);
+   ("total_vals", smp_total_vals); ("setup_vals", smp_setup_vals); ("balance_vals", smp_balance_vals); ("order_vals", smp_order_vals);
+   ("idle_vals_of", smp_idle_vals_of); ("cost_vals", smp_cost_vals); ("delta_vals", smp_delta_vals); ("upd_opt_vals", smp_upd_opt_vals);
+   ("pnse_vals", smp_pnse_vals); ("pnk_vals", smp_pnk_vals); ("slope_vals", smp_slope_vals); ("ptls_vals", smp_ptls_vals);
+   ("ptns_vals", smp_ptns_vals); ("push_once_vals", smp_push_once_vals); ("loop_test_vals", smp_loop_test_vals);
+   ("push_vals", smp_push_vals); ("push_all_vals", smp_push_all_vals); ("t1d_run_vals", smp_t1d_run_vals);
+   ("t1d_run_vals/rev", smp_t1d_run_vals_rev); ("solution_vals", smp_solution_vals); ("assignment_vals", smp_assignment_vals)].
 
 Definition cover_funs : list cfun := [
+  mkCF "AbacusMachine.v" "AbacusLegalizer::check" [
+    mkC OPreInc MInt "++i" 0
+      (Excluded ELoopCounter "counter of a for loop tested against nbRows() (an int) before every increment");
+    mkC OAdd MInt "cellToX_[c] + cellWidth_[c]" 0
+      (Listed "gp_aux_vals" 1 I32);
+    mkC OPreInc MInt "++i" 1
+      (Excluded ELoopCounter "counter of a for loop tested against nbRows() (an int) before every increment");
+    mkC OAdd MInt "cellToX_[c1] + cellWidth_[c1]" 0
+      (Listed "gp_aux_vals" 1 I32)];
   mkCF "AbacusMachine.v" "AbacusLegalizer::evaluatePlacement" [
 ];
   mkCF "AbacusMachine.v" "AbacusLegalizer::placeCell" [
@@ -133,6 +179,23 @@ Definition cover_funs : list cfun := [
       (Excluded ELoopCounter "counter of a for loop tested against nbCells() (an int) before every increment");
     mkC OPreInc MInt "++i" 0
       (Excluded ELoopCounter "counter of a for loop tested against nbRows() (an int) before every increment")];
+  mkCF "AbacusMachine.v" "LegalizerBase::check" [
+    mkC (ONarrow MULong) MInt "(int)cellWidth_.size()" 0
+      (Excluded ESize "(int)cellWidth_.size() compared with nbCells()");
+    mkC (ONarrow MULong) MInt "(int)cellHeight_.size()" 0
+      (Excluded ESize "(int)cellHeight_.size() compared with nbCells()");
+    mkC (ONarrow MULong) MInt "(int)cellTargetX_.size()" 0
+      (Excluded ESize "(int)cellTargetX_.size() compared with nbCells()");
+    mkC (ONarrow MULong) MInt "(int)cellTargetY_.size()" 0
+      (Excluded ESize "(int)cellTargetY_.size() compared with nbCells()");
+    mkC (ONarrow MULong) MInt "(int)cellTargetOrientation_.size()" 0
+      (Excluded ESize "(int)cellTargetOrientation_.size() compared with nbCells()");
+    mkC (ONarrow MULong) MInt "(int)cellToX_.size()" 0
+      (Excluded ESize "(int)cellToX_.size() compared with nbCells()");
+    mkC (ONarrow MULong) MInt "(int)cellToY_.size()" 0
+      (Excluded ESize "(int)cellToY_.size() compared with nbCells()");
+    mkC (ONarrow MULong) MInt "(int)cellToOrientation_.size()" 0
+      (Excluded ESize "(int)cellToOrientation_.size() compared with nbCells()")];
   mkCF "AbacusMachine.v" "LegalizerBase::closestRow" [
     mkC OSub MInt "nbRows() - 1" 0
       (Listed "closest_row_vals/end" 1 I32);
@@ -146,6 +209,8 @@ Definition cover_funs : list cfun := [
       (Listed "closest_row_vals/mid" 1 I32);
     mkC OSub MInt "row - 1" 1
       (Listed "closest_row_vals/mid" 1 I32)];
+  mkCF "AbacusMachine.v" "LegalizerBase::getOrientation" [
+];
   mkCF "AbacusMachine.v" "LegalizerBase::nbCells" [
     mkC (ONarrow MULong) MInt "cellWidth_.size()" 0
       (Excluded ESize "cellWidth_.size(): the number of cells of the legalizer; abacus_vals ranges over the cells without listing their count (a circuit has < 2^31 cells)")];
@@ -157,9 +222,9 @@ Definition cover_funs : list cfun := [
       (Listed "a_try_vals" 0 I32)];
   mkCF "AbacusMachine.v" "RowLegalizer::getPlacement" [
     mkC OAdd MInt "finalAbsPos[i] + cumWidth_[i]" 0
-      (Excluded ENotListed "ret[i] = finalAbsPos[i] + cumWidth_[i]: executed by AbacusLegalizer::run (read-back loop, abacus_legalizer.cpp:28); abacus_vals says that loop copies values only. Position of a placed cell: inside the row by C12's theorems about RowLeg.placement, but no machine listing");
+      (Listed "gp_aux_vals" 0 I32);
     mkC OAdd MInt "finalAbsPos[i] + cumWidth_[i + 1]" 0
-      (Excluded ENotListed "assert(finalAbsPos[i] + cumWidth_[i + 1] <= end_): right edge of the placed cell, evaluated in assertion builds; no machine listing")];
+      (Listed "gp_aux_vals" 1 I32)];
   mkCF "AbacusMachine.v" "RowLegalizer::remainingSpace" [
     mkC OSub MInt "end_ - begin_ - usedSpace()" 0
       (Listed "a_try_vals" 8 I32);
@@ -224,11 +289,11 @@ Definition cover_funs : list cfun := [
     mkC OAddA MLLong "cellArea += area(i)" 0
       (Listed "cell_area_vals" 3 I64);
     mkC (OFloatToInt MDouble) MLLong "expandedArea += static_cast<double>(expansionFactor[i]) * area(i)" 0
-      (Excluded ENotListed "expandedArea += (double)expansionFactor[i] * area(i): a float -> integer conversion (or an int derived from one) that no listing takes as an input; observed by -fsanitize=float-cast-overflow only");
+      (Excluded ENotListed "double -> long long of every partial sum: Properties_C18.c18f_factor_never_narrower ASSUMES |expanded_area_f| < 2^63 for the final value and proves nothing about the conversions; observed by -fsanitize=float-cast-overflow only");
     mkC OPreInc MInt "++i" 1
       (Excluded ELoopCounter "counter of a for loop tested against nbCells() (an int) before every increment");
     mkC (OFloatToInt MDouble) MInt "static_cast<int>(cellWidth_[i] * static_cast<double>(expansion[i]))" 0
-      (Excluded ENotListed "static_cast<int>(cellWidth_[i] * (double)expansion[i]): a float -> integer conversion (or an int derived from one) that no listing takes as an input; observed by -fsanitize=float-cast-overflow only")];
+      (Excluded ENotListed "double -> int: ExpandFloatFactor.scaled_width_f_ge gives the lower bound (>= the old width) for factors up to 2^101; no theorem bounds the product below 2^31 (it needs factor * width < 2^31); observed by -fsanitize=float-cast-overflow only")];
   mkCF "DensityMachine.v" "Circuit::expandCellsToDensity" [
     mkC OPreInc MInt "++i" 0
       (Excluded ELoopCounter "counter of a for loop tested against nbCells() (an int) before every increment");
@@ -237,9 +302,11 @@ Definition cover_funs : list cfun := [
     mkC OPreInc MInt "++i" 1
       (Excluded ELoopCounter "counter of a for loop tested against nbCells() (an int) before every increment");
     mkC (OFloatToInt MDouble) MInt "(int)fracW" 0
-      (Excluded ENotListed "(int)fracW: a float -> integer conversion (or an int derived from one) that no listing takes as an input; observed by -fsanitize=float-cast-overflow only");
+      (Excluded ECoveredElsewhere "Properties_C18.c18f_density_conversion_defined (fw_ok): for a finite factor in [1, 2^63], 0 <= w < 2^31 and a finite cap in [0, 2^31), fracW (the capped product, binary64) is finite and in [0, 2^31): the conversion is defined. Not a machine-integer listing value");
     mkC OPreInc MInt "++newW" 0
-      (Excluded ENotListed "++newW after int newW = (int)fracW: a float -> integer conversion (or an int derived from one) that no listing takes as an input; observed by -fsanitize=float-cast-overflow only")];
+      (Excluded ENotListed "int newW = (int)fracW, then ++newW while missingArea >= h: Properties_C18.c18f_carry_invariant_step bounds the final width by fracW + missingArea / h (< fracW + 1 + 2^-20), so it fits int when the cap is at most 2^31 - 2 (inside C07's magnitudes the cap is at most 2^23 * maxExpandedWidth); no theorem states the int bound itself")];
+  mkCF "DensityMachine.v" "Circuit::isFixed" [
+];
   mkCF "DensityMachine.v" "DensityGrid::DensityGrid(int, const std::vector<Rectangle> &)" [
 ];
   mkCF "DensityMachine.v" "DensityGrid::binCapacity(coloquinte::DensityGrid::BinGroup)" [
@@ -249,6 +316,10 @@ Definition cover_funs : list cfun := [
       (Excluded ELoopCounter "counter of a for loop tested against g.maxYCoord (an int) before every increment");
     mkC OAddA MLLong "ret += binCapacity_[i][j]" 0
       (Listed "sum_vals" 0 I64)];
+  mkCF "DensityMachine.v" "DensityGrid::binLimitX" [
+];
+  mkCF "DensityMachine.v" "DensityGrid::binLimitY" [
+];
   mkCF "DensityMachine.v" "DensityGrid::check" [
     mkC (ONarrow MULong) MInt "(int)binCapacity_.size()" 0
       (Excluded ESize "(int)binCapacity_.size() == nbBinsX()");
@@ -371,9 +442,15 @@ Definition cover_funs : list cfun := [
       (Listed "nb_bins_vals" 1 I32);
     mkC ODiv MInt "placementArea_.height() / maxSize" 0
       (Listed "nb_bins_vals" 3 I32)];
+  mkCF "DensityMachine.v" "HierarchicalDensityPlacement::binCapacity" [
+];
+  mkCF "DensityMachine.v" "HierarchicalDensityPlacement::binCells" [
+];
   mkCF "DensityMachine.v" "HierarchicalDensityPlacement::binUsage" [
     mkC OAddA MLLong "usage += cellDemand(c)" 0
       (Listed "sum_vals" 0 I64)];
+  mkCF "DensityMachine.v" "HierarchicalDensityPlacement::cellDemand" [
+];
   mkCF "DensityMachine.v" "HierarchicalDensityPlacement::fromIspdCircuit" [
     mkC OPreInc MInt "++i" 0
       (Excluded ELoopCounter "counter of a for loop tested against circuit.nbCells() (an int) before every increment");
@@ -381,6 +458,28 @@ Definition cover_funs : list cfun := [
       (Excluded EConstant "demands.push_back(0LL) into std::vector<int>");
     mkC (ONarrow MLLong) MInt "circuit.area(i)" 0
       (Listed "demand_vals" 3 I32)];
+  mkCF "DensityMachine.v" "HierarchicalDensityPlacement::getGroup" [
+    mkC OAdd MInt "x + 1" 0
+      (Excluded EIndex "xLimits_[levelX_][x + 1]: x < nbBinsX() (an int)");
+    mkC OAdd MInt "y + 1" 0
+      (Excluded EIndex "yLimits_[levelY_][y + 1]: y < nbBinsY()")];
+  mkCF "DensityMachine.v" "HierarchicalDensityPlacement::nbBinsX()" [
+];
+  mkCF "DensityMachine.v" "HierarchicalDensityPlacement::nbBinsX(int)" [
+    mkC (ONarrow MULong) MInt "xLimits_[lvl].size() - 1" 0
+      (Excluded ESize "xLimits_[lvl].size() - 1: the number of bins of a view, at most that of the grid (centers_vals lists binLimitX_.size() - 1)");
+    mkC OUnsigned MULong "xLimits_[lvl].size() - 1" 0
+      (Excluded EIndex "every level of the hierarchy keeps at least the two outer limits: size() - 1 does not wrap")];
+  mkCF "DensityMachine.v" "HierarchicalDensityPlacement::nbBinsY()" [
+];
+  mkCF "DensityMachine.v" "HierarchicalDensityPlacement::nbBinsY(int)" [
+    mkC (ONarrow MULong) MInt "yLimits_[lvl].size() - 1" 0
+      (Excluded ESize "yLimits_[lvl].size() - 1");
+    mkC OUnsigned MULong "yLimits_[lvl].size() - 1" 0
+      (Excluded EIndex "every level of the hierarchy keeps at least the two outer limits: size() - 1 does not wrap")];
+  mkCF "DensityMachine.v" "HierarchicalDensityPlacement::nbCells" [
+    mkC (ONarrow MULong) MInt "cellDemand_.size()" 0
+      (Excluded ESize "cellDemand_.size(): the number of cells")];
   mkCF "DensityMachine.v" "HierarchicalDensityPlacement::totalDemand" [
     mkC OAddA MLLong "ret += demand" 0
       (Listed "sum_vals" 0 I64)];
@@ -492,6 +591,9 @@ Definition cover_funs : list cfun := [
       (Excluded EIndex "cellLimits_[cell + 1] - cellLimits_[cell]: an offset into the CSR arrays, non-negative and at most the number of pins (an int held by the same array)");
     mkC OAdd MInt "cell + 1" 0
       (Excluded EIndex "cell + 1 (cell < nbCells()): an offset into the CSR arrays, non-negative and at most the number of pins (an int held by the same array)")];
+  mkCF "HpwlMachine.v" "IncrNetModel::nbCells" [
+    mkC (ONarrow MULong) MInt "cellPos_.size()" 0
+      (Excluded ESize "cellPos_.size(): the number of cells of the net model (assert of nbCellPins)")];
   mkCF "HpwlMachine.v" "IncrNetModel::nbNetPins" [
     mkC OSub MInt "netLimits_[net + 1] - netLimits_[net]" 0
       (Excluded EIndex "netLimits_[net + 1] - netLimits_[net]: an offset into the CSR arrays, non-negative and at most the number of pins (an int held by the same array)");
@@ -559,6 +661,12 @@ Definition cover_funs : list cfun := [
 ];
   mkCF "MovesMachine.v" "DetailedPlacement::isPlaced" [
 ];
+  mkCF "MovesMachine.v" "DetailedPlacement::nbCells" [
+    mkC (ONarrow MULong) MInt "cellWidth_.size()" 0
+      (Excluded ESize "cellWidth_.size(): the number of cells (asserts of the accessors); a circuit has < 2^31 cells")];
+  mkCF "MovesMachine.v" "DetailedPlacement::nbRows" [
+    mkC (ONarrow MULong) MInt "rows_.size()" 0
+      (Excluded ESize "rows_.size(): the number of rows (asserts of the accessors)")];
   mkCF "MovesMachine.v" "DetailedPlacement::place" [
 ];
   mkCF "MovesMachine.v" "DetailedPlacement::positionOnInsert" [
@@ -599,6 +707,8 @@ Definition cover_funs : list cfun := [
   mkCF "MovesMachine.v" "DetailedPlacement::unplace" [
 ];
   mkCF "MovesMachine.v" "rowAllowed" [
+];
+  mkCF "RowLegMachine.v" "RowLegalizer::getCost" [
 ];
   mkCF "RowLegMachine.v" "RowLegalizer::getDisplacement" [
     mkC OSub MInt "targetPos - usedSpace()" 0
@@ -649,6 +759,8 @@ Definition cover_funs : list cfun := [
       (Listed "gd_vals" 12 I32);
     mkC OSub MInt "finalAbsPos - targetAbsPos" 0
       (Listed "gd_vals" 11 I32)];
+  mkCF "RowLegMachine.v" "RowLegalizer::push" [
+];
   mkCF "RowLegMachine.v" "RowLegalizer::usedSpace" [
 ];
   mkCF "SspMachine.v" "TransportationProblem::increaseCapacity" [
@@ -760,7 +872,271 @@ Definition cover_funs : list cfun := [
     mkC (ONarrow MULong) MInt "(int)ret.size()" 0
       (Excluded ESize "assert((int)ret.size() == number + 1): the vector holds number + 1 <= INT_MAX elements (subdiv_dom: number < 2147483647)");
     mkC OAdd MInt "number + 1" 1
-      (Listed "subdiv_iter_vals" 0 I32)]
+      (Listed "subdiv_iter_vals" 0 I32)];
+  mkCF "Transp1dMachine.v" "Transportation1d::Transportation1d(const std::vector<long long> &, const std::vector<long long> &, const std::vector<long long> &, const std::vector<long long> &)" [
+];
+  mkCF "Transp1dMachine.v" "Transportation1d::Transportation1d(std::vector<long long> &&, std::vector<long long> &&, std::vector<long long> &&, std::vector<long long> &&)" [
+];
+  mkCF "Transp1dMachine.v" "Transportation1d::assign" [
+];
+  mkCF "Transp1dMachine.v" "Transportation1d::balanceDemand" [
+    mkC OSub MLLong "totalSupply() - totalDemand()" 0
+      (Listed "balance_vals" 5 I64);
+    mkC ODiv MLLong "missing / nbSinks()" 0
+      (Listed "balance_vals" 7 I64);
+    mkC OPreInc MInt "++i" 0
+      (Listed "balance_vals" 10 I32);
+    mkC OAddA MLLong "d[i] += added" 0
+      (Listed "balance_vals" 8 I64);
+    mkC OSub MLLong "missing - added * nbSinks()" 0
+      (Listed "balance_vals" 13 I64);
+    mkC OMul MLLong "added * nbSinks()" 0
+      (Listed "balance_vals" 12 I64);
+    mkC OPreInc MInt "++i" 1
+      (Listed "balance_vals" 15 I32);
+    mkC OAddA MLLong "d[i] += 1LL" 0
+      (Listed "balance_vals" 14 I64)];
+  mkCF "Transp1dMachine.v" "Transportation1d::check" [
+    mkC (ONarrow MULong) MInt "(int)u.size()" 0
+      (Listed "total_vals" 0 I32);
+    mkC (ONarrow MULong) MInt "(int)v.size()" 0
+      (Listed "total_vals" 0 I32);
+    mkC (ONarrow MULong) MInt "(int)s.size()" 0
+      (Excluded ESize "(int)s.size(), compared with nbSources(): t1d_dom asks for equal lengths, fewer than 2^31 - 1 sources + sinks");
+    mkC (ONarrow MULong) MInt "(int)d.size()" 0
+      (Excluded ESize "(int)d.size(), compared with nbSinks(): t1d_dom asks for equal lengths")];
+  mkCF "Transp1dMachine.v" "Transportation1d::checkNonZeroCapacities" [
+];
+  mkCF "Transp1dMachine.v" "Transportation1d::checkSorted" [
+    mkC OAdd MInt "i + 1" 0
+      (Excluded ELoopCounter "for (int i = 0; i + 1 < nbSources(); ++i): i + 1 is at most nbSources() (an int), ++i only after the test");
+    mkC OPreInc MInt "++i" 0
+      (Excluded ELoopCounter "for (int i = 0; i + 1 < nbSources(); ++i): i + 1 is at most nbSources() (an int), ++i only after the test");
+    mkC OAdd MInt "i + 1" 1
+      (Excluded ELoopCounter "for (int i = 0; i + 1 < nbSources(); ++i): i + 1 is at most nbSources() (an int), ++i only after the test");
+    mkC OAdd MInt "i + 1" 2
+      (Excluded ELoopCounter "for (int i = 0; i + 1 < nbSinks(); ++i): i + 1 is at most nbSinks() (an int), ++i only after the test");
+    mkC OPreInc MInt "++i" 1
+      (Excluded ELoopCounter "for (int i = 0; i + 1 < nbSinks(); ++i): i + 1 is at most nbSinks() (an int), ++i only after the test");
+    mkC OAdd MInt "i + 1" 3
+      (Excluded ELoopCounter "for (int i = 0; i + 1 < nbSinks(); ++i): i + 1 is at most nbSinks() (an int), ++i only after the test")];
+  mkCF "Transp1dMachine.v" "Transportation1d::checkStrictlySorted" [
+    mkC OAdd MInt "i + 1" 0
+      (Excluded ELoopCounter "for (int i = 0; i + 1 < nbSources(); ++i): i + 1 is at most nbSources() (an int), ++i only after the test");
+    mkC OPreInc MInt "++i" 0
+      (Excluded ELoopCounter "for (int i = 0; i + 1 < nbSources(); ++i): i + 1 is at most nbSources() (an int), ++i only after the test");
+    mkC OAdd MInt "i + 1" 1
+      (Excluded ELoopCounter "for (int i = 0; i + 1 < nbSources(); ++i): i + 1 is at most nbSources() (an int), ++i only after the test");
+    mkC OAdd MInt "i + 1" 2
+      (Excluded ELoopCounter "for (int i = 0; i + 1 < nbSinks(); ++i): i + 1 is at most nbSinks() (an int), ++i only after the test");
+    mkC OPreInc MInt "++i" 1
+      (Excluded ELoopCounter "for (int i = 0; i + 1 < nbSinks(); ++i): i + 1 is at most nbSinks() (an int), ++i only after the test");
+    mkC OAdd MInt "i + 1" 3
+      (Excluded ELoopCounter "for (int i = 0; i + 1 < nbSinks(); ++i): i + 1 is at most nbSinks() (an int), ++i only after the test")];
+  mkCF "Transp1dMachine.v" "Transportation1d::cost(int, int)" [
+    mkC OAbs MLLong "std::abs(u[i] - v[j])" 0
+      (Listed "cost_vals" 1 I64);
+    mkC OSub MLLong "u[i] - v[j]" 0
+      (Listed "cost_vals" 0 I64)];
+  mkCF "Transp1dMachine.v" "Transportation1d::nbSinks" [
+    mkC (ONarrow MULong) MInt "v.size()" 0
+      (Listed "total_vals" 0 I32)];
+  mkCF "Transp1dMachine.v" "Transportation1d::nbSources" [
+    mkC (ONarrow MULong) MInt "u.size()" 0
+      (Listed "total_vals" 0 I32)];
+  mkCF "Transp1dMachine.v" "Transportation1d::sinkDemand" [
+];
+  mkCF "Transp1dMachine.v" "Transportation1d::sinkPosition" [
+];
+  mkCF "Transp1dMachine.v" "Transportation1d::sourcePosition" [
+];
+  mkCF "Transp1dMachine.v" "Transportation1d::sourceSupply" [
+];
+  mkCF "Transp1dMachine.v" "Transportation1d::totalDemand" [
+    mkC OPreInc MInt "++i" 0
+      (Excluded ELoopCounter "counter of a for loop tested against nbSinks() (an int) before every increment");
+    mkC OAddA MLLong "ret += d[i]" 0
+      (Listed "total_vals" 1 I64)];
+  mkCF "Transp1dMachine.v" "Transportation1d::totalSupply" [
+    mkC OPreInc MInt "++i" 0
+      (Excluded ELoopCounter "counter of a for loop tested against nbSources() (an int) before every increment");
+    mkC OAddA MLLong "ret += s[i]" 0
+      (Listed "total_vals" 1 I64)];
+  mkCF "Transp1dMachine.v" "Transportation1dSolver::Transportation1dSolver" [
+];
+  mkCF "Transp1dMachine.v" "Transportation1dSolver::check" [
+    mkC (ONarrow MULong) MInt "(int)S.size()" 0
+      (Excluded ESize "(int)S.size() == nbSources() + 1: setupData pushed one prefix sum per source");
+    mkC OAdd MInt "nbSources() + 1" 0
+      (Listed "setup_vals" 3 I32);
+    mkC (ONarrow MULong) MInt "(int)D.size()" 0
+      (Excluded ESize "(int)D.size() == nbSinks() + 1");
+    mkC OAdd MInt "nbSinks() + 1" 0
+      (Listed "setup_vals" 0 I32);
+    mkC (ONarrow MULong) MInt "(int)p.size()" 0
+      (Listed "solution_vals" 0 I32)];
+  mkCF "Transp1dMachine.v" "Transportation1dSolver::computeAssignment" [
+    mkC OAdd MLLong "p[i] + S[i] + s[i] / 2" 0
+      (Listed "assignment_vals" 2 I64);
+    mkC OAdd MLLong "p[i] + S[i]" 0
+      (Listed "assignment_vals" 0 I64);
+    mkC ODiv MLLong "s[i] / 2" 0
+      (Listed "assignment_vals" 1 I64);
+    mkC OAdd MInt "currentSink + 1" 0
+      (Listed "assignment_vals" 3 I32);
+    mkC OPreInc MInt "++currentSink" 0
+      (Listed "assignment_vals" 3 I32)];
+  mkCF "Transp1dMachine.v" "Transportation1dSolver::computeSolution" [
+    mkC (ONarrow MULong) MInt "(int)p.size()" 0
+      (Listed "solution_vals" 0 I32);
+    mkC OAdd MLLong "S[i] + p[i]" 0
+      (Listed "solution_vals" 3 I64);
+    mkC OAdd MLLong "S[i + 1] + p[i]" 0
+      (Listed "solution_vals" 4 I64);
+    mkC OAdd MInt "i + 1" 0
+      (Listed "solution_vals" 1 I32);
+    mkC OAdd MInt "j + 1" 0
+      (Listed "solution_vals" 2 I32);
+    mkC OSub MLLong "e - b" 0
+      (Listed "solution_vals" 5 I64);
+    mkC OSub MLLong "e - b" 1
+      (Listed "solution_vals" 5 I64);
+    mkC OPreInc MInt "++i" 0
+      (Listed "solution_vals" 1 I32);
+    mkC OPreInc MInt "++j" 0
+      (Listed "solution_vals" 2 I32)];
+  mkCF "Transp1dMachine.v" "Transportation1dSolver::delta" [
+    mkC OSub MLLong "cost(i, j + 1) + cost(i + 1, j) - cost(i + 1, j + 1) - cost(i, j)" 0
+      (Listed "delta_vals" 12 I64);
+    mkC OSub MLLong "cost(i, j + 1) + cost(i + 1, j) - cost(i + 1, j + 1)" 0
+      (Listed "delta_vals" 11 I64);
+    mkC OAdd MLLong "cost(i, j + 1) + cost(i + 1, j)" 0
+      (Listed "delta_vals" 10 I64);
+    mkC OAdd MInt "j + 1" 0
+      (Listed "delta_vals" 0 I32);
+    mkC OAdd MInt "i + 1" 0
+      (Listed "delta_vals" 1 I32);
+    mkC OAdd MInt "i + 1" 1
+      (Listed "delta_vals" 1 I32);
+    mkC OAdd MInt "j + 1" 1
+      (Listed "delta_vals" 0 I32)];
+  mkCF "Transp1dMachine.v" "Transportation1dSolver::flushPositions" [
+    mkC OSub MLLong "totalDemand() - S[p.size()]" 0
+      (Listed "t1d_run_vals/rev" 3 I64);
+    mkC (ONarrow MULong) MInt "p.size() - 1" 0
+      (Listed "t1d_run_vals/rev" 0 I32);
+    mkC OUnsigned MULong "p.size() - 1" 0
+      (Excluded EIndex "p.size() - 1 in size_t: wraps when p is empty and converts to -1 (modular, defined); the listing holds the int result (the last values of run_vals, k - 1 for k = 0 .. p.size())");
+    mkC OPreDec MInt "--i" 0
+      (Listed "t1d_run_vals/rev" 1 I32)];
+  mkCF "Transp1dMachine.v" "Transportation1dSolver::getSlope" [
+    mkC OAddA MLLong "slope += events.top().second" 0
+      (Listed "slope_vals" 0 I64)];
+  mkCF "Transp1dMachine.v" "Transportation1dSolver::push" [
+    mkC OSub MLLong "D[optimalSink] - S[i]" 0
+      (Listed "push_vals" 5 I64);
+    mkC OSub MLLong "D[lastOccupiedSink + 1] - S[i + 1]" 0
+      (Listed "loop_test_vals" 2 I64);
+    mkC OAdd MInt "lastOccupiedSink + 1" 0
+      (Listed "loop_test_vals" 0 I32);
+    mkC OAdd MInt "i + 1" 0
+      (Listed "loop_test_vals" 1 I32)];
+  mkCF "Transp1dMachine.v" "Transportation1dSolver::pushNewSinkEvents" [
+    mkC OPreInc MInt "++l" 0
+      (Listed "pnk_vals" 0 I32);
+    mkC OSub MLLong "D[l + 1] - S[i]" 0
+      (Listed "pnk_vals" 1 I64);
+    mkC OAdd MInt "l + 1" 0
+      (Listed "pnk_vals" 0 I32);
+    mkC OSub MLLong "cost(i, l) - cost(i, l + 1)" 0
+      (Listed "pnk_vals" 6 I64);
+    mkC OAdd MInt "l + 1" 1
+      (Listed "pnk_vals" 0 I32)];
+  mkCF "Transp1dMachine.v" "Transportation1dSolver::pushNewSourceEvents" [
+    mkC (ONarrow MLong) MInt "std::upper_bound(v.begin(), v.end(), u[i - 1]) - v.begin()" 0
+      (Listed "pnse_vals" 1 I32);
+    mkC OSub MInt "i - 1" 0
+      (Listed "pnse_vals" 0 I32);
+    mkC OSub MInt "b - 1" 0
+      (Listed "pnse_vals" 2 I32);
+    mkC (ONarrow MLong) MInt "std::lower_bound(v.begin(), v.end(), u[i]) - v.begin()" 0
+      (Listed "pnse_vals" 3 I32);
+    mkC OPreInc MInt "++j" 0
+      (Listed "pnse_vals" 4 I32);
+    mkC OSub MLLong "D[j + 1] - S[i]" 0
+      (Listed "pnse_vals" 5 I64);
+    mkC OAdd MInt "j + 1" 0
+      (Listed "pnse_vals" 4 I32);
+    mkC OSub MInt "i - 1" 1
+      (Listed "pnse_vals" 0 I32)];
+  mkCF "Transp1dMachine.v" "Transportation1dSolver::pushOnce" [
+    mkC OSub MInt "nbSinks() - 1" 0
+      (Listed "push_once_vals" 0 I32);
+    mkC OAdd MInt "j + 1" 0
+      (Listed "push_once_vals" 1 I32);
+    mkC OAdd MLLong "getSlope() + cost(i, j)" 0
+      (Listed "push_once_vals" 7 I64)];
+  mkCF "Transp1dMachine.v" "Transportation1dSolver::pushToLastSink" [
+    mkC OSub MLLong "D[j + 1] - S[i + 1]" 0
+      (Listed "ptls_vals" 2 I64);
+    mkC OAdd MInt "j + 1" 0
+      (Listed "ptls_vals" 0 I32);
+    mkC OAdd MInt "i + 1" 0
+      (Listed "ptls_vals" 1 I32)];
+  mkCF "Transp1dMachine.v" "Transportation1dSolver::pushToNewSink" [
+    mkC OAdd MInt "lastOccupiedSink + 1" 0
+      (Listed "ptns_vals" 0 I32)];
+  mkCF "Transp1dMachine.v" "Transportation1dSolver::run" [
+    mkC OAdd MInt "nbSources() + nbSinks()" 0
+      (Listed "t1d_run_vals" 0 I32);
+    mkC OPreInc MInt "++i" 0
+      (Listed "push_all_vals" 0 I32)];
+  mkCF "Transp1dMachine.v" "Transportation1dSolver::setupData" [
+    mkC OAdd MInt "nbSinks() + 1" 0
+      (Listed "setup_vals" 0 I32);
+    mkC OAdd MLLong "D.back() + c" 0
+      (Listed "setup_vals" 1 I64);
+    mkC OAdd MInt "nbSources() + 1" 0
+      (Listed "setup_vals" 3 I32);
+    mkC OAdd MLLong "S.back() + c" 0
+      (Listed "setup_vals" 4 I64)];
+  mkCF "Transp1dMachine.v" "Transportation1dSolver::totalDemand" [
+];
+  mkCF "Transp1dMachine.v" "Transportation1dSolver::totalSupply" [
+];
+  mkCF "Transp1dMachine.v" "Transportation1dSolver::updateOptimalSink" [
+    mkC OAdd MInt "j + 1" 0
+      (Listed "upd_opt_vals" 0 I32);
+    mkC OAdd MInt "j + 1" 1
+      (Listed "upd_opt_vals" 0 I32);
+    mkC OPreInc MInt "++j" 0
+      (Listed "upd_opt_vals" 5 I32)];
+  mkCF "Transp1dMachine.v" "Transportation1dSorter::Transportation1dSorter" [
+    mkC (ONarrow MLLong) MInt "p.second" 0
+      (Listed "order_vals" 0 I32);
+    mkC (ONarrow MLLong) MInt "p.second" 1
+      (Listed "order_vals" 0 I32);
+    mkC OSub MLLong "u[i] - snkSort[k - 1].first" 0
+      (Listed "idle_vals_of" 0 I64);
+    mkC OSub MLLong "snkSort[k].first - u[i]" 0
+      (Listed "idle_vals_of" 1 I64);
+    mkC (ONarrow MLLong) MInt "snkSort[k].second" 0
+      (Listed "idle_vals_of" 2 I32)];
+  mkCF "Transp1dMachine.v" "Transportation1dSorter::convert" [
+];
+  mkCF "Transp1dMachine.v" "Transportation1dSorter::convertAssignmentBack" [
+];
+  mkCF "Transp1dMachine.v" "Transportation1dSorter::convertSolutionBack" [
+]
 ].
 
-Definition cover : cover := mkCover cover_samples cover_funs.
+(* functions of the repo that a function of the table calls and that are deliberately not in the table, with the reason *)
+Definition callees_not_inlined : list (string * string) := [
+  ("Circuit::computePlacementArea", "bounding box of the rows (min / max only); its result is an input of the DensityGrid constructor listed by grid_vals");
+  ("Circuit::computeRows", "free-space computation of C09 (Row::freespace): the rows it returns are the INPUT of clip_vals / row_area_vals; not transcribed by DensityMachine.v");
+  ("LegalizerBase::rowHeight", "returns the height of the first row (Rectangle::height is in the table); defined in legalizer.cpp, check() only");
+  ("cellOrientationInRow", "parameters.cpp: a case distinction over two enums, no integer arithmetic");
+  ("isTurn", "parameters.cpp: comparison of an enum with four constants, no integer arithmetic")
+].
+
+Definition cover : cover := mkCover cover_samples cover_funs callees_not_inlined.
